@@ -204,18 +204,28 @@ def walk(t):
         x = stack.pop()
         yield x
         if isinstance(x, tuple):
-            for ch in x[1:]:
+            kids = x[1:] if (x and isinstance(x[0], str)) else x
+            for ch in kids:
                 if isinstance(ch, tuple):
                     stack.append(ch)
 
 
 def subst(t, mapping):
     """Replace subterms by mapping (dict term->term), bottom-up, re-normalising."""
-    if t in mapping:
-        return mapping[t]
-    if not isinstance(t, tuple) or len(t) == 1:
+    if not isinstance(t, tuple):
+        return t
+    try:
+        if t in mapping:
+            return mapping[t]
+    except TypeError:
+        pass
+    if len(t) == 0:
         return t
     h = t[0]
+    if not isinstance(h, str):
+        return tuple(subst(x, mapping) for x in t)
+    if len(t) == 1:
+        return t
     if h in ("num", "sym", "str", "bool", "opaque", "none"):
         return t
     if h == "call":
